@@ -99,7 +99,7 @@ def items(tier, seed):
                 obj = OBJECTIVES[(si * 3 + li) % len(OBJECTIVES)]
                 for outer in (False, True):
                     its.append({"inputs": list(s[0]), "output": s[1], "obj": obj, "outer": outer, "D": 16, "mode": "one", "label": lab, "pattern": (li + si) % 2, "tier": tier})
-        for si, s in enumerate(sk4[:2]):
+        for si, s in enumerate(sk4[2:4]):
             labels = skel.all_labels(s[0])
             for oi, obj in enumerate(("combo", "limit", "combo-2", "limit-2")):
                 its.append({"inputs": list(s[0]), "output": s[1], "obj": obj, "outer": bool((si + oi) % 2), "D": 16, "mode": "one", "label": labels[(si + oi) % len(labels)], "pattern": oi % 2, "tier": tier, "previous": True})
